@@ -14,6 +14,11 @@ QUERIES = [
           desc="secp256k1_ecdsa_sig_recover for all r, s, m < n and recid 0..3: failure set (zero r/s, r >= p-n with recid bit 1, off-curve x, infinite result), x = r (+ n), parity, Q = r^-1 (s R - m G) handed to the curve layer",
           bounds="fixed-size objects"),
 ]
+_t = Query("t_sign_verify_order13", "T/h_t.c", "harness_ecdsa", defs=["T_ECDSA"], unwind=140, unwindset=["secp256k1_ecdsa_sign_inner.0:4"], timeout=3000, mem_gb=8, allow=["secp256k1_scalar_inverse", "secp256k1_scalar_inverse_var"],
+           desc="engine T (order-13 subgroup, table model generated and validated from the real code at check time): pubkey_create -> ecdsa_sign (arbitrary, possibly failing nonce function, <= 3 attempts) -> ecdsa_verify accepts; failed signing leaves a zero signature",
+           bounds="group order 13; two symbolic low key bytes, all message bytes, <= 3 nonce attempts")
+_t.gen_table = 13
+QUERIES.append(_t)
 LEVEL_TEXT = ("Bounded model checking of the real ECDSA verify/sign code at real width: curve results are free 256-bit values and scalar mul/inverse are uninterpreted functions, "
               "so the verdict covers every boundary (s=(n+-1)/2, r>=p-n, msg>=n, key 0/>=n) and every kernel behaviour.")
 ASSUMPTIONS = ["that ecmult/ecmult_gen compute the group operation is C05's subject; here their result is a free point (z = 1)",
@@ -22,6 +27,6 @@ ASSUMPTIONS = ["that ecmult/ecmult_gen compute the group operation is C05's subj
                "nonce retry loop: at most 2 attempts explored (later attempts execute the same loop body)"]
 
 MANIFEST_ENTRY = {
-    "text": "Bounded model checking of the real ECDSA verify/sign/sign_recoverable code at real width with curve results as free values and scalar mul/inverse uninterpreted: verify == reference predicate for ALL (r, s, msg, key, x(R)) incl. s=(n+-1)/2 and r>=p-n; sign: failure masking, RFC 6979 key material uses msg mod n, s/r/recid formulas, nonce hand-over, for all keys/messages incl. >= n.",
-    "note": "Not covered: that ecmult/ecmult_gen compute the group law (C05, not encodable), end-to-end sign=>verify in a concrete group; retry loop bounded to 2 nonce attempts; 64-bit limb configuration only. Trusted: CBMC/kissat, stubs.",
+    "text": "Engine T: in the order-13 group of the repository's exhaustive-test configuration (group layer = index arithmetic over a table generated and validated from the real code at check time, arbitrary nonce function) every signature ecdsa_sign creates is accepted by ecdsa_verify. Bounded model checking of the real ECDSA verify/sign/sign_recoverable code at real width with curve results as free values and scalar mul/inverse uninterpreted: verify == reference predicate for ALL (r, s, msg, key, x(R)) incl. s=(n+-1)/2 and r>=p-n; sign: failure masking, RFC 6979 key material uses msg mod n, s/r/recid formulas, nonce hand-over, for all keys/messages incl. >= n.",
+    "note": "Not covered: that ecmult/ecmult_gen compute the group law (C05, not encodable), end-to-end sign=>verify only in the order-13 group of engine T; retry loop bounded to 2 nonce attempts; 64-bit limb configuration only. Trusted: CBMC/kissat, stubs.",
 }
